@@ -93,6 +93,8 @@ def run(tier, wd):
                 want = 0     # the hook with index 1 exits with status 0
             elif want == 12:
                 want = 253   # the hook with index 2 exits with status -3
+            elif want == 13:
+                want = 300 % 256   # the hook with index 3 exits with status 300
             ok = p.returncode == want and "RETURNED" not in p.stdout
         elif c["fin"] == "panic":
             ok = p.returncode == 99 and ("PANIC " + c["by"]) in p.stdout
